@@ -17,7 +17,7 @@ CHECKS = {
 CHECKS["C02"] = dict(
     category="proof",
     text="solver.step / solver_mle.step / solver_dynamic.step are verified to be exactly one textbook EKF step (predict with the prior transition, linearise at the predicted mean with the documented Jacobian structure, condition on zero data with damping) for every state, step size, damping and vector field (uninterpreted f with uninterpreted Jacobian), per listed configuration; smoother steps additionally carry the RTS gain. solver*.init is verified with and without constraint_init: the initial state is the prior's initial random variable, or its exact Gaussian conditioning on the linearised initial constraint (least-squares gain), with the documented auxiliary state (MLE running scale = whitened RMS of the initial innovation, count 1).",
-    note="configurations and (q,d) shapes are enumerated (values are not bounded); gain non-singularity (solve_triu) is an inherited precondition; Kalman gain is a ghost witness from the memoised revert contract; grids follow by induction over fold(step) (solve_fixed_grid scan body); for the least-squares gain of the initial update a non-singular innovation factor is an inherited precondition (ghost inverse), under which the least-squares residual vanishes (left-cancellation lemma); real arithmetic",
+    note="configurations and (q,d) shapes are enumerated (values are not bounded); gain non-singularity (solve_triu) is an inherited precondition; Kalman gain is a ghost witness from the memoised revert contract; solve_fixed_grid is verified to be init + one solver.step per grid interval (dt = increment, caller's damp) + at-t1 hand-over, with an abstract solver, per grid length (1 and 3 intervals quick; 2 and 6 thorough); for the least-squares gain of the initial update a non-singular innovation factor is an inherited precondition (ghost inverse), under which the least-squares residual vanishes (left-cancellation lemma); real arithmetic",
     design_ref="DESIGN.md section 4 (C02)",
 )
 
